@@ -825,6 +825,29 @@ fn lived_in_store(p: &mut ProbeReport, r: &mut Rng, rounds: usize, which: &str) 
     }
 }
 
+/// 300 records that all share the query word, limit 30 (store size exactly 10·limit), inserted in ascending and in
+/// descending order of rating: the same thirty best-rated hits either way, equal to the head of the unlimited list
+fn big_store_orders(p: &mut ProbeReport, which: &str) {
+    for code in ["none", "en"] {
+        let recs: Vec<(usize, String, usize)> = (1..=300).map(|i| (i, format!("Lamp {:03}", i), i)).collect();
+        let mut rev = recs.clone(); rev.reverse();
+        let (up, down) = (Scn { lang: code.into(), recs: recs.clone(), limit: 30 }, Scn { lang: code.into(), recs: rev, limit: 30 });
+        for q in ["lamp", "lamp 2", ""] {
+            let (a, b) = (search_results(&up.build(), q), search_results(&down.build(), q));
+            p.eval(&format!("big|{}|{}|{}", which, code, q), true);
+            if a != b { p.fail(format!("300 records, limit 30, query {:?}: ascending insertion lists {:?}, descending insertion lists {:?}", q, ids(&a), ids(&b)), up.case("big-store-orders", vec![Op::Search(q.to_string())])); return; }
+            if q != "lamp 2" {
+                let want: Vec<usize> = (271..=300).rev().collect();
+                if ids(&a) != want { p.fail(format!("300 records that all hold the query word, limit 30, query {:?}: listed {:?}, the thirty best-rated are {:?}", q, ids(&a), want), up.case("big-store-best", vec![Op::Search(q.to_string())])); return; }
+            }
+            if which == "C06" {
+                let unl = search_results(&Scn { limit: 1000, ..up.clone() }.build(), q);
+                if a != unl.iter().take(30).cloned().collect::<Vec<_>>() { p.fail(format!("300 records, limit 30, query {:?}: {:?} is not the head of the unlimited list", q, ids(&a)), up.case("big-store-head", vec![Op::Search(q.to_string())])); return; }
+            }
+        }
+    }
+}
+
 /// every sequence up to `maxlen` over {add a lowest-rated record, add a highest-rated record, limit 2, limit 5,
 /// search ""} applied to a three-record store, then the empty query once more: judged as `which` requires
 fn lived_in_exhaustive(p: &mut ProbeReport, which: &str, maxlen: usize) {
@@ -885,6 +908,7 @@ fn lived_in_exhaustive(p: &mut ProbeReport, which: &str, maxlen: usize) {
 
 fn p06(p: &mut ProbeReport, r: &mut Rng, budget: usize) {
     compaction_stress(p, r, "C06", if budget > 5000 { 12 } else { 2 });
+    big_store_orders(p, "C06");
     lived_in_exhaustive(p, "C06", if budget > 5000 { 7 } else { 6 });
     lived_in_store(p, r, if budget > 5000 { 8000 } else { 800 }, "C06");
     neighbour_locality(p, r, if budget > 5000 { 6000 } else { 700 });
@@ -932,6 +956,7 @@ fn p06(p: &mut ProbeReport, r: &mut Rng, budget: usize) {
 // ---------------- C07: consistent order, independent of other records and insert order ----------------
 fn p07(p: &mut ProbeReport, r: &mut Rng, budget: usize) {
     compaction_stress(p, r, "C07", if budget > 5000 { 12 } else { 2 });
+    big_store_orders(p, "C07");
     lived_in_exhaustive(p, "C07", if budget > 5000 { 7 } else { 6 });
     lived_in_store(p, r, if budget > 5000 { 6000 } else { 600 }, "C07");
     let budget = budget + p.evaluations;
